@@ -45,6 +45,7 @@ type ConcProfile struct {
 	PSel      float64
 	PMidDump  float64 // the scheduler dumps the primary between two steps
 	Snapshot  bool    // one more actor takes a snapshot meanwhile; it is restored into a fresh collection at the end
+	Snapshot2 bool    // and another one a second snapshot: refused while the first holds the recorder, accepted once the first copies
 	Keyed     bool    // rows are created through InsertKey / UpsertKey
 	Fine      bool    // park at commit.drawn as well
 	Schedules int     // schedules explored per program set
@@ -276,6 +277,12 @@ func runConcOnce(p ConcProfile, seed int64, progs [][]CTxn, choose chooser, midD
 			P.Snapshot("sn", "f1", nil)
 		})
 	}
+	if p.Snapshot && p.Snapshot2 {
+		s.Spawn("sn2", func() {
+			s.Yield("api")
+			P.Snapshot("sn2", "f2", nil)
+		})
+	}
 	for {
 		live := s.Live()
 		if len(live) == 0 {
@@ -310,6 +317,18 @@ func runConcOnce(p ConcProfile, seed int64, progs [][]CTxn, choose chooser, midD
 			}
 			S.Restore("rs", "f1", -1)
 			S.Dump(0)
+			if _, ok := w.Blobs["f2"]; ok && p.Snapshot2 {
+				S2 := w.NewColl("S2", p.Capacity, p.Transport, 0)
+				S2.Keys = P.Keys
+				for _, d := range p.Cols {
+					S2.CreateColumn(d)
+				}
+				for _, x := range p.Idx {
+					S2.CreateIndex(x)
+				}
+				S2.Restore("rs", "f2", -1)
+				S2.Dump(0)
+			}
 		}
 	}
 	return w.T.Finish()
@@ -414,6 +433,7 @@ func ConcProfileFor(name string, seed int64) ConcProfile {
 		p.Cols = []ColDesc{{"a", "int", []string{"add", "affine"}[r.Intn(2)], numRepr()}, {"s", "str", "", "string"}}
 		p.Idx = []IdxDesc{{"big", "a", "ge", 5}}
 		p.Snapshot = true
+		p.Snapshot2 = r.Intn(2) == 0
 		p.Replica = false
 		p.Writers = 2 + r.Intn(3)
 		p.Txns = 1 + r.Intn(2)
@@ -421,6 +441,16 @@ func ConcProfileFor(name string, seed int64) ConcProfile {
 		p.Schedules = 12
 		p.PRollback, p.PFailIns = 0.1, 0.1
 		p.PInsert = 0.4
+	case "c14x": // two overlapping snapshots: the second is refused while the first holds the recorder and accepted once the first
+		// copies; whichever returns first must leave the other's recorder alone; writers keep committing throughout
+		p.Cols = []ColDesc{{"a", "int", "add", numRepr()}, {"s", "str", "", "string"}}
+		p.Snapshot, p.Snapshot2 = true, true
+		p.Replica = false
+		p.Writers = 2
+		p.Txns = 3
+		p.Prologue = []string{"block1", "edge", "three"}[r.Intn(3)]
+		p.Schedules = 16
+		p.PInsert = 0.3
 	case "c08dfs":
 		p.Cols = []ColDesc{{"a", "int", "add", "int"}}
 		p.Snapshot = true
